@@ -150,6 +150,17 @@ func build(k *Case) (*built, bool) {
 	return &built{ints: certs[:n-1], root: certs[n-1]}, true
 }
 
+// issuedBy: the input bit of the root selection in authority.init — the root's subject is the
+// issuer of an intermediate of the list and its key verifies that intermediate's signature.
+func issuedBy(ints []*x509.Certificate, root *x509.Certificate) bool {
+	for _, crt := range ints {
+		if bytes.Equal(crt.RawIssuer, root.RawSubject) && crt.CheckSignatureFrom(root) == nil {
+			return true
+		}
+	}
+	return false
+}
+
 func certField(crt *x509.Certificate) string {
 	l := gen.LevelOf(crt)
 	return strings.Join([]string{c.XB(crt.RawSubject), c.XB(crt.RawIssuer), c.XB(crt.SubjectKeyId), c.XB(crt.AuthorityKeyId), l.Render()}, "~")
@@ -165,7 +176,7 @@ func (k *Case) render(b *built) (string, bool) {
 		ints[i] = certField(crt)
 	}
 	js, _ := json.Marshal(k)
-	signs := b.ints[len(b.ints)-1].CheckSignatureFrom(b.root) == nil
+	signs := issuedBy(b.ints, b.root)
 	fr := k.fr
 	if fr == "" {
 		fr = "-"
